@@ -22,7 +22,7 @@ ASSUMPTIONS = [
     'networkx / numpy internals executed concretely and trusted',
 ]
 OPTS = {'quick': {'max_validate': 6, 'validate_every': 7}, 'thorough': {'max_validate': 10, 'validate_every': 31}}
-MUST_EVALUATE = {'quick': ['t0=tmin', 'time-ordered', 'counts-sum-N', 'one-legal-move', 'sir-monotone', 'dies-out', 't<tmax']}
+MUST_EVALUATE = {'quick': ['t0=tmin', 'time-ordered', 'counts-sum-N', 'one-legal-move', 'sir-monotone', 'dies-out', 't<tmax', 't<=tmax-discrete', 'one-node-changes', 'counts-track-statuses']}
 
 
 def functions():
@@ -60,16 +60,75 @@ def configs(tier):
                                 c['wstub'] = True
                             if entry == 'fast_nonMarkov_SIR':
                                 c['ties'] = True
+                                c['zero_delay'] = True
+                                c['zero_duration'] = True
                             out.append(c)
+        # rates equal to zero (boundary rows of the quantifier)
+        if entry != 'fast_nonMarkov_SIR':
+            for g in ('K2+K1', 'P3'):
+                for zero in ('tau', 'gamma', 'both'):
+                    for I0 in ([0], [2], [0, 2]):
+                        for full in (False, True):
+                            out.append(dict(entry=entry, graph=g, I0=I0, R0=[], full=full, weights='none', tmax='sym' if zero != 'tau' else 'inf',
+                                            zero=zero, tags=[g, 'zero:' + zero, 'full' if full else 'plain']))
+    e = 3 if tier == 'quick' else 4
+    for entry in ('Gillespie_SIS', 'fast_SIS', 'fast_nonMarkov_SIS'):
+        for g in ['K1', 'K2', 'K2+K1', 'P3'] + (['K3'] if tier == 'thorough' else []):
+            for I0, _ in graphs.automorphism_reduced_ics(g, with_recovered=False):
+                if tier == 'quick' and g == 'P3' and len(I0) > 1 and entry != 'Gillespie_SIS':
+                    continue
+                for full in (False, True):
+                    c = dict(entry=entry, graph=g, I0=I0, R0=[], full=full, weights='none', tmax='sym', tags=[g, 'full' if full else 'plain'])
+                    if entry == 'Gillespie_SIS':
+                        c.update(max_expo=e + 1, truncate=False)
+                    elif entry == 'fast_SIS':
+                        c.update(max_expo=2 * e - 1)
+                    else:
+                        c.update(max_infections=e, delays_per_pair=1, ties=True)
+                    out.append(c)
+        if entry != 'fast_nonMarkov_SIS':
+            for zero in ('tau', 'gamma'):
+                for full in (False, True):
+                    out.append(dict(entry=entry, graph='K2+K1', I0=[0, 2], R0=[], full=full, weights='none', tmax='sym', zero=zero, max_expo=4,
+                                    tags=['K2+K1', 'zero:' + zero, 'full' if full else 'plain']))
+    for entry in ('discrete_SIR', 'basic_discrete_SIR', 'percolation_based_discrete_SIR', 'basic_discrete_SIS'):
+        sir = entry.endswith('SIR')
+        for g in ['K1', 'K2+K1', 'P3'] + (['K3'] if tier == 'thorough' else []):
+            for I0, R0 in graphs.automorphism_reduced_ics(g, with_recovered=sir):
+                if len(R0) > 1:
+                    continue
+                for full in (False, True):
+                    for tmax in (('inf', 'steps:2', 'sym') if sir else ('steps:2', 'sym')):
+                        if tmax != 'steps:2' and (R0 or len(I0) > 1):
+                            continue
+                        c = dict(entry=entry, graph=g, I0=I0, R0=R0, full=full, tmax=tmax, tags=[g, 'full' if full else 'plain', 'tmax:' + tmax] + (['R0'] if R0 else []))
+                        if tmax == 'sym' and not sir:
+                            c['tmax_within'] = 2.5     # a symbolic horizon of at most 3 steps (SIS never dies out on its own)
+                        out.append(c)
+    from checks import C03, C15
+    for c in C03.configs(tier):
+        if c['mode'] == 'plain' and c['graph'] in ('P3', 'D:3:01,12,20') and c['spec'] in ('SIS', 'SEIR', 'compete'):
+            for full in (False, True):
+                for tmax in ('inf', 'sym'):
+                    out.append(dict(c, family='simple', full=full, tmax=tmax, truncate=(tmax == 'inf'), wstub=None, tags=['simple'] + c['tags'] + ['tmax:' + tmax]))
+    for c in C15.configs(tier):
+        if c['graph'] == 'P3' and not c['full']:
+            out.append(dict(c, family='complex', tags=['complex'] + c['tags']))
     return out
 
 
 def run_path(h, cfg):
+    if cfg.get('family') == 'simple':
+        return run_simple(h, cfg)
+    if cfg.get('family') == 'complex':
+        from checks import C15
+        return C15.run_path(h, cfg)
     r = simruns.setup(cfg)
     ret = simruns.call_entry(h, r, 'no-exception')
     if ret is None:
         return None
     o = simruns.outputs(r, ret)
+    discrete = 'discrete' in cfg['entry']
     if o.full:
         arrays = h.call_must_succeed('summary', simobl.arrays_of_sim, o)
         if arrays is None:
@@ -78,9 +137,33 @@ def run_path(h, cfg):
         # required when no two events share a time on this path (the per-event arrays of the
         # plain mode are checked with ties)
         nev = sum(len(o.sim.node_history(n)[0]) - 1 for n in r.nodes)
-        simobl.wellformed_arrays(h, r, o, arrays, one_move=(len(arrays['t']) - 1 == nev))
+        simobl.wellformed_arrays(h, r, o, arrays, discrete=discrete, one_move=(not discrete and len(arrays['t']) - 1 == nev))
     else:
         arrays = o.arrays
-        simobl.wellformed_arrays(h, r, o, arrays)
-    simobl.dies_out(h, r, o, arrays)
+        simobl.wellformed_arrays(h, r, o, arrays, discrete=discrete, one_move=not discrete)
+    if o.sir and not (discrete and cfg.get('tmax', 'inf') != 'inf'):
+        simobl.dies_out(h, r, o, arrays)
     return simruns.result_struct(o, r.nodes)
+
+
+def run_simple(h, cfg):
+    from checks import C03
+    r = C03.build(cfg)
+    if cfg['full']:
+        sim = C03.call(h, r, True)
+        if sim is None:
+            return None
+        if not hasattr(sim, 'summary'):
+            h.fail('full-data-object-returned', {'got': type(sim).__name__})
+            return None
+        t = list(sim.t())
+        D = sim.summary()[1]
+        ret = [t] + [list(D[s]) for s in r.statuses]
+    else:
+        ret = C03.call(h, r, False)
+        if ret is None:
+            return None
+    deltas = C03.structural(h, r, ret)
+    if deltas is not None:
+        h.require('one-legal-move', True)
+    return {'t': list(ret[0]), 'cols': [[int(x) for x in c] for c in ret[1:]]}
